@@ -8,6 +8,7 @@
 #include <set>
 #include <mutex>
 #include <deque>
+#include <optional>
 #include <memory>
 #include <cstring>
 
@@ -264,6 +265,27 @@ static void check_routes(impl::Lexicon& lex, Rng& rng, std::uint64_t inst)
             if (&lex.get_string(widen(sp)) == &ts) tviol("route:hash-twin:word-lookalike", "get_string(\"" + sp + "\") is the node of an ordinary word with the same length and hash code");
          }
       }
+      // one client String object re-created in place with another spelling for back-to-back requests: a vendor language the
+      // Lexicon knows already, then a standard one, then a built-in's spelling through the identifier route - what the object at
+      // that address spelled a moment ago is of no consequence
+      {
+         (void)lex.get_linkage(u8"Java"); (void)lex.get_linkage(u8"Fortran");
+         static thread_local std::optional<impl::String> slot; static thread_local std::u8string slot_bytes;
+         auto respell = [&](const char8_t* w) -> const ipr::String& { slot.reset(); slot_bytes = w; slot.emplace(util::word_view(slot_bytes)); return *slot; };
+         for (int k = 0; k < 4; ++k) {
+            for (auto vendor : { u8"Java", u8"Fortran" }) {
+               if (narrow(lex.get_linkage(respell(vendor)).language().what().characters()) != narrow(vendor)) tviol("route:recycled-string->linkage:vendor", "get_linkage(a client String spelled like a known vendor language) is spelled differently");
+               if (&lex.get_linkage(respell(k % 2 ? u8"C" : u8"C++")) != (k % 2 ? &L.c_linkage() : &L.cxx_linkage())) tviol("route:recycled-string->linkage:lookalike", "get_linkage(a client String spelled C / C++, re-created in the storage of a String that spelled a vendor language a moment ago) is not the standard linkage");
+               if (&lex.get_linkage(respell(k % 2 ? u8"C++" : u8"C")) != (k % 2 ? &L.cxx_linkage() : &L.c_linkage())) tviol("route:recycled-string->linkage:lookalike", "get_linkage(a client String spelled C++ / C, re-created in place) is not the standard linkage");
+               tcount("routes_through_a_string_object_recreated_in_place", 3);
+            }
+            (void)lex.get_identifier(u8"size_type");
+            if (narrow(lex.get_identifier(respell(u8"size_type")).string().characters()) != "size_type") tviol("route:recycled-string->identifier", "get_identifier(a client String spelled like a known identifier) is spelled differently");
+            const int bi = (k * 7) % NB;
+            if (&lex.get_identifier(respell(widen(std::string(builtins[bi].spelling)).data())) != &(L.*builtins[bi].get)().name()) tviol("route:recycled-string->identifier:lookalike", "get_identifier(a client String spelled like a built-in, re-created in the storage of a String that spelled an ordinary identifier a moment ago) is not the built-in's name");
+            tcount("routes_through_a_string_object_recreated_in_place", 2);
+         }
+      }
       if (&lex.get_label(lex.get_identifier(u8"default")) != &L.default_value()) tviol("route:identifier->label:default:after-look-alikes", "get_label(identifier \"default\") is no longer default_value() once a symbol spelled default exists in the Lexicon");
       if (&L.default_value().type() == &L.void_type()) tviol("constant:type:default_value", "default_value() is typed void");
       if (&lex.get_decltype(L.nullptr_value()) != &L.nullptr_value().type()) tviol("route:expression->decltype:nullptr:after-look-alikes", "get_decltype(nullptr_value()) is no longer nullptr_value().type()");
@@ -365,7 +387,7 @@ static void body(Ctx& C)
    C.sample(J().s("kind", "route").s("route", "get_as_type(get_identifier(\"long long\"))").s("expect", "long_long_type()").str());
    C.sample(J().s("kind", "near-miss").s("route", "get_as_type(get_identifier(\"long long \"))").s("expect", "not a constant, unified").str());
    C.need("builtin_accessors_checked"); C.need("builtin_pairs_checked"); C.need("routes_checked"); C.need("near_miss_routes_checked");
-   C.need("lexicon_instances"); C.need("lexicon_instances_threaded"); C.need("same_length_hash_twins_of_constant_spellings_planted"); C.need("constants_seen_during_static_initialisation");
+   C.need("lexicon_instances"); C.need("lexicon_instances_threaded"); C.need("same_length_hash_twins_of_constant_spellings_planted"); C.need("constants_seen_during_static_initialisation"); C.need("routes_through_a_string_object_recreated_in_place");
    C.exhaustive(true);
 }
 
